@@ -511,22 +511,28 @@ def method_or_builtin(S, site, hole, L):
     """`let f = field_attribute.method.as_ref().unwrap_or_else(|| { types.push(&field.ty); &built_in });`
     returns ('method-or', builtin path string, closure ctx id) if the hole has that shape for loop L's field, else None"""
     t = S.hole_term(site, hole)
-    if not (isinstance(t, tuple) and t[0] == 'mcall' and t[2] == 'unwrap_or_else' and len(t) == 4 and isinstance(t[3], tuple) and t[3][0] == 'closure'):
-        return None
-    if not S.attr_rec_ok(t[1], L, 'method'):
-        return None
-    cid = t[3][1]
-    # value of the closure: `&built_in` -> constant path template
     fw = site.tmpl.fw
     tm = site.tmpl.terms
     val = None
-    for ev in fw.events:
-        if ev.kind == 'closure' and ev.entry['id'] == cid:
-            body = ev.node['body']
-            if body['k'] == 'Block':
-                val = tm.block_value_term(body, 0)
-            else:
-                val = tm.value_in_recorded_scope(body, 0)
+    cid = None
+    if isinstance(t, tuple) and t[0] == 'mcall' and t[2] == 'unwrap_or_else' and len(t) == 4 and isinstance(t[3], tuple) and t[3][0] == 'closure':
+        if not S.attr_rec_ok(t[1], L, 'method'):
+            return None
+        cid = t[3][1]
+        # value of the closure: `&built_in` -> constant path template
+        for ev in fw.events:
+            if ev.kind == 'closure' and ev.entry['id'] == cid:
+                body = ev.node['body']
+                if body['k'] == 'Block':
+                    val = tm.block_value_term(body, 0)
+                else:
+                    val = tm.value_in_recorded_scope(body, 0)
+    elif isinstance(t, tuple) and t[0] == 'iflet' and t[1] == 'Some(_)' and t[3] == ('some_of', t[2]) and S.attr_rec_ok(t[2], L, 'method'):
+        # the same choice written as `match method { Some(m) => m, None => { ..; &built_in } }` / `if let`
+        val = t[4]
+        cid = ('iflet', id(t))
+    else:
+        return None
     if not (isinstance(val, tuple) and val[0] == 'unwrap' and isinstance(val[1], tuple) and val[1][0] == 'call' and str(val[1][1]).endswith('parse2')):
         return None
     tt = val[1][2]
